@@ -28,10 +28,32 @@ def reactionFlags : List Bool :=
   [Gen.bufVersionQuery, Gen.bufPresentationRequest, Gen.bufReboot, Gen.bufReqReply, Gen.bufIdResponse,
    Gen.bufConfig, Gen.bufTime, Gen.bufDiscover, Gen.bufFlush]
 
+/-- **The messages the controller may write while handling the received message `m`** — the
+reaction table of C06 as a predicate (payloads of the config and time replies are pinned down by
+their own theorems; here only their shape matters). -/
+inductive Reaction (m : Msg) : Msg → Prop where
+  /-- the version query `0;255;3;0;2;` -/
+  | versionQuery : Reaction m versionQuery
+  /-- the presentation request to the sender (C10) -/
+  | presentationRequest : Reaction m (presentationRequest m.node)
+  /-- the reboot command to the sender -/
+  | reboot : Reaction m ⟨m.node, Gen.systemChildId, Gen.cmdInternal, 0, Gen.iReboot, []⟩
+  /-- a stored value, as a set message to the asker -/
+  | reqReply (value : Str) : Reaction m ⟨m.node, m.child, Gen.cmdSet, 0, m.type, value⟩
+  /-- the id response, addressed like the request -/
+  | idResponse (id : Int) : Reaction m ⟨m.node, m.child, m.cmd, 0, Gen.iIdResponse, dec id⟩
+  /-- config / time reply: same address, command and type as the request -/
+  | echoReply (payload : Str) : Reaction m ⟨m.node, m.child, m.cmd, 0, m.type, payload⟩
+  /-- the discover broadcast -/
+  | discover : Reaction m ⟨Gen.broadcastId, m.child, m.cmd, 0, Gen.iDiscover, []⟩
+  /-- a parked command of the node that just woke (C07) -/
+  | released (bm : Msg) (h : bm.node = m.node) : Reaction m bm
+
 /-- Everything handling the message `m` can do to the world, as `R`-steps. -/
 structure StepRel (R : W → W → Prop) (m : Msg) : Prop where
   pre : PreO R
-  write : ∀ line, Rel R (transportWrite line)
+  /-- only reactions are ever handed to the transport -/
+  write : ∀ sm, Reaction m sm → Rel R (transportWrite (encode sm))
   /-- handlers only ever (re)write the node the message is from … -/
   setNode : ∀ n, Rel R (AioMySensors.setNode m.node n)
   /-- … or register a placeholder under the next free id (id request) -/
@@ -47,29 +69,35 @@ variable {R : W → W → Prop} {m : Msg} {line : Str}
 /-- The command has the parking outgoing handler in some version. -/
 def ParksCmd (cmd : Int) : Prop := ∃ v, (Gen.outgoingHandlers v).lookup cmd = some (some .set14)
 
-theorem rel_gwSend (hR : StepRel R m) (sm : Msg) (b : Bool) (hpark : b = true → ParksCmd sm.cmd → Rel R (parkMod sm)) :
+theorem rel_gwSend (hR : StepRel R m) (sm : Msg) (b : Bool) (hr : Reaction m sm)
+    (hpark : b = true → ParksCmd sm.cmd → Rel R (parkMod sm)) :
     Rel R (gwSend sm b) := by
   unfold gwSend
   refine Rel.bind hR.pre (Rel.getSt hR.pre) fun st => ?_
   split
   · exact Rel.raise hR.pre _
   · exact Rel.raise hR.pre _
-  · exact hR.write _
+  · exact hR.write _ hr
   · next hl =>
     split
     · split
       · next hb =>
         simp only [Bool.and_eq_true] at hb
         exact hpark hb.1 ⟨_, hl⟩
-      · exact hR.write _
-    · exact hR.write _
+      · exact hR.write _ hr
+    · exact hR.write _ hr
 
 /-- What the generic traversal needs to know about parking at the reaction call sites. -/
 def ParkOK (R : W → W → Prop) : Prop := ∀ b ∈ reactionFlags, b = true → ∀ m, ParksCmd m.cmd → Rel R (parkMod m)
 
-theorem rel_gwSend_site (hR : StepRel R m) (hp : ParkOK R) (sm : Msg) (b : Bool) (hb : b ∈ reactionFlags) :
-    Rel R (gwSend sm b) :=
-  rel_gwSend hR sm b fun h hc => hp b hb h sm hc
+theorem rel_gwSend_site (hR : StepRel R m) (hp : ParkOK R) (sm : Msg) (b : Bool) (hr : Reaction m sm)
+    (hb : b ∈ reactionFlags) : Rel R (gwSend sm b) :=
+  rel_gwSend hR sm b hr fun h hc => hp b hb h sm hc
+
+/-- Which reaction a call site sends. -/
+macro "reaction_tac" : tactic => `(tactic| first
+  | exact Reaction.versionQuery | exact Reaction.presentationRequest | exact Reaction.reboot
+  | exact Reaction.reqReply _ | exact Reaction.idResponse _ | exact Reaction.echoReply _ | exact Reaction.discover)
 
 theorem rel_requireNode (hR : StepRel R m) (id : Int) : Rel R (requireNode id) := by
   unfold requireNode
@@ -81,9 +109,9 @@ theorem rel_requireNode (hR : StepRel R m) (id : Int) : Rel R (requireNode id) :
 /-- Syntax-directed search for `Rel R`. -/
 macro "rel_auto" hR:ident hp:ident : tactic => `(tactic| repeat' (first
   | exact Rel.pure (StepRel.pre $hR) _ | exact Rel.raise (StepRel.pre $hR) _ | exact Rel.getSt (StepRel.pre $hR)
-  | exact StepRel.write $hR _ | exact StepRel.setNode $hR _ | exact StepRel.alloc $hR | exact rel_requireNode $hR _
+  | exact StepRel.setNode $hR _ | exact StepRel.alloc $hR | exact rel_requireNode $hR _
   | exact Rel.convertExn (StepRel.pre $hR) _ _ _
-  | exact rel_gwSend_site $hR $hp _ _ (by simp [reactionFlags])
+  | exact rel_gwSend_site $hR $hp _ _ (by reaction_tac) (by simp [reactionFlags])
   | refine Rel.seq (StepRel.pre $hR) ?_ ?_ | refine Rel.bind (StepRel.pre $hR) ?_ (fun _ => ?_)
   | split
   | dsimp only))
@@ -104,7 +132,7 @@ theorem rel_wrapMissingNC (hR : StepRel R m) (hp : ParkOK R) {inner : Msg → M 
     refine Rel.bind hR.pre (Rel.getSt hR.pre) fun st => ?_
     split
     · exact Rel.raise hR.pre _
-    · refine Rel.seq hR.pre (rel_gwSend_site hR hp _ _ (by simp [reactionFlags])) ?_
+    · refine Rel.seq hR.pre (rel_gwSend_site hR hp _ _ Reaction.presentationRequest (by simp [reactionFlags])) ?_
       exact Rel.seq hR.pre hR.mark (Rel.raise hR.pre _)
   · exact absurd hy (by simp)
 
@@ -115,7 +143,7 @@ theorem rel_flushList (hR : StepRel R m) (hp : ParkOK R) (l : List (Key × Msg))
   | cons x xs ih =>
     obtain ⟨k, bm⟩ := x
     unfold flushList
-    exact Rel.seq hR.pre (rel_gwSend_site hR hp _ _ (by simp [reactionFlags]))
+    exact Rel.seq hR.pre (rel_gwSend_site hR hp _ _ (Reaction.released bm (hl (k, bm) (by simp))) (by simp [reactionFlags]))
       (Rel.seq hR.pre (hR.erase k bm (hl (k, bm) (by simp))) (ih fun e he => hl e (by simp [he])))
 
 theorem rel_flush (hR : StepRel R m) (hp : ParkOK R) : Rel R (flush m) := by
@@ -239,13 +267,28 @@ theorem rel_recv (hpre : PreO R) (hR : ∀ v m, decode v line = some m → StepR
   · exact Rel.raise hpre _
   · next m hm => exact rel_dispatch (hR _ m hm) hp env _
 
-/-- **Generic send theorem.** -/
-theorem rel_apiSend (hR : StepRel R m) (hpark : ∀ sm, ParksCmd sm.cmd → Rel R (parkMod sm)) (obj : Option Msg) (b : Bool) :
+/-- **Generic send theorem**: the user's message is parked or written; nothing else happens. -/
+theorem rel_apiSend (hpre : PreO R) (hwrite : ∀ sm, Rel R (transportWrite (encode sm)))
+    (hpark : ∀ sm, ParksCmd sm.cmd → Rel R (parkMod sm)) (obj : Option Msg) (b : Bool) :
     Rel R (apiSend obj b) := by
   unfold apiSend
   cases obj with
-  | none => exact Rel.raise hR.pre _
-  | some sm => exact rel_gwSend hR sm b fun _ hc => hpark sm hc
+  | none => exact Rel.raise hpre _
+  | some sm =>
+    unfold gwSend
+    refine Rel.bind hpre (Rel.getSt hpre) fun st => ?_
+    split
+    · exact Rel.raise hpre _
+    · exact Rel.raise hpre _
+    · exact hwrite _
+    · next hl =>
+      split
+      · split
+        · next hb =>
+          simp only [Bool.and_eq_true] at hb
+          exact hpark sm ⟨_, hl⟩
+        · exact hwrite _
+      · exact hwrite _
 
 /-- Parking is an `R`-step wherever it may happen: the simple way to satisfy `ParkOK`. -/
 theorem ParkOK.of_all (h : ∀ m, Rel R (parkMod m)) : ParkOK R := fun _ _ _ m _ => h m
